@@ -9,13 +9,18 @@ import (
 	"strings"
 
 	"github.com/free5gc/go-upf/internal/verif/c14"
+	"github.com/free5gc/go-upf/internal/verif/c16"
 	"github.com/free5gc/go-upf/internal/verif/c19"
+	"github.com/free5gc/go-upf/internal/verif/c20"
 	"github.com/free5gc/go-upf/internal/verif/seqx"
 	"github.com/free5gc/go-upf/internal/verif/sworld"
+	"github.com/free5gc/go-upf/internal/verif/xlate"
 )
 
 var checks = map[string]func(tier string){
 	"C01": sworld.RunC01,
+	"C02": xlate.RunC02,
+	"C03": xlate.RunC03,
 	"C04": sworld.RunC04,
 	"C05": sworld.RunC05,
 	"C06": sworld.RunC06,
@@ -24,7 +29,9 @@ var checks = map[string]func(tier string){
 	"C11": sworld.RunC11,
 	"C12": sworld.RunC12,
 	"C14": c14.Run,
+	"C16": c16.Run,
 	"C19": c19.Run,
+	"C20": c20.Run,
 }
 
 func main() {
